@@ -68,7 +68,7 @@ def repr_rust(s):
 
 def run(ctx):
     ctx.rule = ("strings over {0,9,-,/,t,c,p,u,d,x}: exhaustive up to length 4 (quick) / 6 (thorough), plus random longer strings, "
-                "plus quoted spellings with surrounding blanks; each converted through a [Container] unit; "
+                "plus every 1-4 letter word over {t,c,p,u,d} as protocol suffix of valid port parts, single-symbol edits of valid values, plus quoted spellings with surrounding blanks; each converted through a [Container] unit; "
                 "non-trivial = in the language or containing a digit; distinct = distinct strings")
     vals = []
     L = 6 if ctx.tier == "thorough" else 4
@@ -81,6 +81,21 @@ def run(ctx):
         n = rng.randint(5, 14)
         s = "".join(rng.choice(["0", "9", "1", "-", "/", "tcp", "udp", "t", "c", "p", "u", "d", "x", "/tcp", "/udp"]) for _ in range(n))
         vals.append((s, s))
+    # near misses of the protocol suffix: every word of 1-4 letters over {t,c,p,u,d} (and a few foreign letters) after a valid port part
+    for head in ["9", "80-90", "0-0"]:
+        for k in range(1, 5):
+            for p in itertools.product("tcpud", repeat=k):
+                vals.append((head + "/" + "".join(p),) * 2)
+        for w in ["TCP", "Udp", "tcpp", "tcp/", "tcp/udp", "udptcp", "sctp", "tc", "tcq", " tcp", "tcp "]:
+            vals.append((head + "/" + w,) * 2)
+    # ... and of the digit parts: one symbol of a valid value replaced, doubled or dropped
+    for base in ["80", "80-90", "80/tcp", "1-2/udp", "65535-65536/tcp"]:
+        for i in range(len(base) + 1):
+            for c in ["", "-", "/", "0", "x", " ", "+", "\u0661"]:
+                vals.append((base[:i] + c + base[i:],) * 2)
+                if i < len(base):
+                    vals.append((base[:i] + c + base[i + 1:],) * 2)
+    vals = [(v, sp) for v, sp in vals if v.strip() == v and v and v[0] not in "#;[" and not v.endswith("\\")] + [x for x in vals if False]
     for s in ["80", "80-90", "80/tcp", "1-2/udp", "-80", "/tcp", "1-/udp", "80/", "x"]:
         for pre, post in [(" ", ""), ("", " "), (" \t", "  "), (" ", " ")]:
             v = pre + s + post
